@@ -1,5 +1,6 @@
 import TantivyModel.Proofs.Merge
 import TantivyModel.Proofs.MergeSteps3
+import TantivyModel.Proofs.MergeMulti5
 /-!
 # C04 — Merging never changes the logical content of the index
 
@@ -458,6 +459,69 @@ theorem C04_stale_merge_never_published (evs : List Ev) (r : Running)
     ((Sys.init.run evs).step .endMerge).st = (Sys.init.run evs).st := by
   simp only [Sys.step, hrun]
   exact C04_merge_invisible_discarded true _ r h
+
+/-- MERGES ARE INVISIBLE with ANY NUMBER OF MERGES IN FLIGHT. `SysM` keeps a list of running
+merges; a merge may be started at any time on any ids — also on segments that another running
+merge is already consuming (`IndexWriter::merge` does not consult the merge inventory) — and the
+merges end in any order. After every event sequence the published documents and the documents
+the next commit would publish are those of the sequential replay. This is where the
+`contains_all` rule of `end_merge` carries the proof: when a merge ends, every other merge that
+shared a source with it has lost that source from its register and will be cancelled
+(`runInv_after_other_end`), while merges over disjoint sources are untouched. The machine is the
+guard-selected one the driver executes (`stepG` / `endMergeG`). -/
+theorem C04_merge_invisible_concurrent_merges (evs : List EvM) :
+    (pubDocs (SysM.init.run evs).st).Perm (Abs.init.run (evs.map EvM.toEv)).pub ∧
+    (pendDocs (SysM.init.run evs).st).Perm (Abs.init.run (evs.map EvM.toEv)).pend :=
+  (runM_all evs SysM.init Abs.init invM_init rel_init).2
+
+/-- A STALE MERGE IS NEVER PUBLISHED (any number of merges in flight, any history): when the
+i-th running merge ends and some source of it is no longer registered — not ALL of its sources
+are in the uncommitted register and not ALL of them in the committed one, e.g. because another
+merge consumed one of them, or after rollback / delete-all — or its updater was replaced, the
+registers and meta.json stay exactly as they were. The rule that decides this is the extracted
+`contains_all` test (`Gen.END_MERGE_REQUIRES_ALL_SOURCES`, from `segments_status` +
+`SegmentRegister::contains_all`); `SysM.step` executes the guard-selected `endMergeG`. -/
+theorem C04_stale_merge_never_published_concurrent (evs : List EvM) (i : Nat) (r : Running)
+    (hr : (SysM.init.run evs).running[i]? = some r)
+    (h : r.epoch ≠ (SysM.init.run evs).st.epoch ∨
+      (containsAll (SysM.init.run evs).st.uncommitted r.sources = false ∧
+       containsAll (SysM.init.run evs).st.committed r.sources = false)) :
+    ((SysM.init.run evs).step (.endMerge i)).st = (SysM.init.run evs).st := by
+  simp only [SysM.step, hr, endMergeG_eq]
+  exact C04_merge_invisible_discarded true _ r h
+
+example : Gen.END_MERGE_REQUIRES_ALL_SOURCES = 1 := by decide
+
+/-- Why ALL sources must be looked up. Segments A, B, C (docs 10, 11, 12) are committed; merge
+#1 = [A, B] and merge #2 = [B, C] run at once; #2 ends first and is published (B, C → one
+segment). With the `contains_all` rule #1 is then cancelled and every document is published once;
+with a test that looks at the FIRST source only, #1 (first source A is still there) is swapped
+in too and document 11 is published twice. -/
+theorem C04_first_source_only_counterexample :
+    let a : Entry := { segId := 0, docs := [⟨10, [1]⟩], alive := [true], cursor := 0 }
+    let b : Entry := { segId := 1, docs := [⟨11, [1]⟩], alive := [true], cursor := 0 }
+    let c : Entry := { segId := 2, docs := [⟨12, [1]⟩], alive := [true], cursor := 0 }
+    let st : State := { queue := [], committed := [a, b, c], uncommitted := [], committedOpstamp := 0,
+                        published := [a, b, c], epoch := 0 }
+    let r1 : Running := ⟨[0, 1], mergeEntries [] [a, b] 0 3, 0⟩
+    let r2 : Running := ⟨[1, 2], mergeEntries [] [b, c] 0 4, 0⟩
+    publishedUids (endMerge (endMerge st r2) r1) = [10, 11, 12] ∧
+    publishedUids (endMergeFirstOnly (endMerge st r2) r1) = [11, 12, 10, 11] := by
+  decide
+
+/-- three committed segments; two merges that share segment 1 run at once, a delete is committed
+meanwhile; the first to end is swapped in (with reconciliation), the second finds a source
+missing and is cancelled; a third merge of uncommitted segments overlaps a fourth -/
+def exTraceM : List EvM :=
+  [.addSeg [⟨10, [1]⟩], .commit, .addSeg [⟨11, [2]⟩], .commit, .addSeg [⟨12, [1]⟩], .commit,
+   .startMerge [0, 1], .startMerge [1, 2], .delete 1, .commit, .endMerge 1, .endMerge 0,
+   .addSeg [⟨13, [3]⟩], .addSeg [⟨14, [3]⟩], .addSeg [⟨15, [4]⟩],
+   .startMerge [5, 6], .startMerge [6, 7], .delete 3, .endMerge 0, .endMerge 0, .commit]
+
+example : publishedUids (SysM.init.run exTraceM).st = [15, 11] := by decide
+example : (SysM.init.run (exTraceM.take 11)).st.committed.map (·.segId) = [0, 4] := by decide
+example : (SysM.init.run (exTraceM.take 12)).st.committed.map (·.segId) = [0, 4] := by decide
+example : (SysM.init.run (exTraceM.take 9)).running.length = 2 := by decide
 
 /-- a trace with everything in it: two commits, a merge of the committed segments started, a
 delete committed while it runs, the merge ends (reconciliation), a second merge of uncommitted
